@@ -216,7 +216,8 @@ def main():
     nLoops = 0
     average_loop = 0
     average_output = 0
-    startPrint = max(0, ti % saveStep)
+    # first slot of the current save window whose row is not yet in the diagnostic file
+    startPrint = ti % saveStep + 1
     timeForLoop = True
     while (ti < tN and timeForLoop):
 
@@ -287,10 +288,12 @@ def main():
             diagnostics.reduce()
             if (rank == 0):
                 diagnosticFile = open(diagnostic_filename, "a")
-                for i in range(startPrint, min(saveStep, ti+1)):
+                # slot 0 holds the step that has just been collected
+                print(diagnostics.getLine(0), file=diagnosticFile)
+                for i in range(startPrint, saveStep):
                     print(diagnostics.getLine(i), file=diagnosticFile)
                 diagnosticFile.close()
-            startPrint = 0
+            startPrint = 1
             output_time += (time.time()-output_start)
             average_output = output_time*saveStep/(nLoops+1)
 
@@ -311,7 +314,7 @@ def main():
         if (rank == 0):
             diagnosticFile = open(diagnostic_filename, "a")
             # the steps since the last save were collected in slots 1..ti % saveStep
-            for i in range(1, ti % saveStep + 1):
+            for i in range(startPrint, ti % saveStep + 1):
                 print(diagnostics.getLine(i), file=diagnosticFile)
             diagnosticFile.close()
 
